@@ -63,33 +63,27 @@ fn docs(k: usize, f: impl Fn(&B)) {
 //@ props: C17
 //@ timeout: 1800
 //@ harness: c17_delete_by_index, c17_delete_by_name, c17_delete_by_keypath, c17_array_insert, c17_object_insert, c17_object_delete_pick, c17_concat, c17_strip_nulls, c17_build, c17_sets, c17_comparable
-//@ desc: each buffer-writing function is run on an empty buffer and on a buffer that already holds two arbitrary bytes, on [n,s], {k:n,kk:null}, scalar n, [{k:null},n] with symbolic arguments (any i32 index except i32::MIN incl. out-of-range no-op copies, symbolic names, key sets, update flag): the prior bytes are untouched, what is appended is byte-identical to the empty-buffer output, and on a documented error nothing is appended
+//@ desc: each buffer-writing function is run on an empty buffer and on a buffer that already holds two arbitrary bytes, on [n,s], {k:n,kk:null}, scalar n, [{k:null},n] with symbolic arguments (indices -5..=5 by case split incl. out-of-range no-op copies, symbolic names, key sets, update flag): the prior bytes are untouched, what is appended is byte-identical to the empty-buffer output, and on a documented error nothing is appended
 //@ fns: delete_by_index, delete_by_name, delete_by_keypath, array_insert, object_insert, object_delete, object_pick, concat, strip_nulls, build_array, build_object, array_distinct, array_intersection, array_except, convert_to_comparable, ArrayBuilder::build_into, ObjectBuilder::build_into, reserve_jentries, replace_jentry
 //@ bounds: documents <= 3 children; prefix 2 bytes
 //@ stubs: parse_value, from_slice -> panic | drop_in_place -> no-op
-harness!(c17_delete_by_index, split1(4, |k| docs(k, |d| {
-    let i: i32 = kani::any();
-    kani::assume(i != i32::MIN);
-    append_only(|b| delete_by_index(d.bytes(), i, b));
-})));
+harness!(c17_delete_by_index, split1(4, |k| docs(k, |d| super::c06::index_arms(false, |i| append_only(|b| delete_by_index(d.bytes(), i, b))))));
 harness!(c17_delete_by_name, split1(3, |k| docs(k, |d| {
     let n = Name::of_len(1);
     append_only(|b| delete_by_name(d.bytes(), n.as_str(), b));
 })));
 harness!(c17_delete_by_keypath, split1(4, |k| docs(k, |d| {
-    let i: i32 = kani::any();
-    kani::assume(i > -4 && i < 4);
     let n = Name::of_len(1);
-    let (p, q) = (KeyPath::Index(i), KeyPath::Name(Cow::Borrowed(n.as_str())));
     let first_idx: bool = kani::any();
-    let path = if first_idx { [&p, &q] } else { [&q, &p] };
-    append_only(|b| delete_by_keypath(d.bytes(), path.iter().copied(), b));
+    super::c06::index_arms(false, |i| {
+        let (p, q) = (KeyPath::Index(i), KeyPath::Name(Cow::Borrowed(n.as_str())));
+        let path = if first_idx { [&p, &q] } else { [&q, &p] };
+        append_only(|b| delete_by_keypath(d.bytes(), path.iter().copied(), b));
+    });
 })));
 harness!(c17_array_insert, split1(4, |k| docs(k, |d| {
-    let i: i32 = kani::any();
-    kani::assume(i != i32::MIN);
     let nw = B::build(&arr(&[leaf(K_NUM, 2)]));
-    append_only(|b| array_insert(d.bytes(), i, nw.bytes(), b));
+    super::c06::index_arms(false, |i| append_only(|b| array_insert(d.bytes(), i, nw.bytes(), b)));
 })));
 harness!(c17_object_insert, split1(3, |k| docs(k, |d| {
     let n = Name::of_len(1);
